@@ -37,7 +37,7 @@ var textPool = []string{"A", " b ", "\n", "\n  ", "<p>", "</p> <b>", "ü€", "x
 
 var allConstructs = []string{"text", "var", "y", "vsim", "if", "ifequal", "ifnotequal", "for", "with", "set", "macro", "import",
 	"include", "lazyinclude", "cycle", "ifchanged", "filtertag", "spaceless", "autoescape", "firstof", "widthratio",
-	"templatetag", "lorem", "now", "comment", "verbatim", "ssi", "ssiplain", "failexpr", "poly", "lazyvar", "big", "recmacro", "listlit", "ctxfunc", "hiddenrandom", "lookup", "ctxmut"}
+	"templatetag", "lorem", "now", "comment", "verbatim", "ssi", "ssiplain", "failexpr", "poly", "lazyvar", "big", "recmacro", "listlit", "ctxfunc", "hiddenrandom", "lookup", "ctxmut", "inlong"}
 
 // filters with the argument forms the generator writes for them
 var filterForms = map[string][]string{
@@ -237,6 +237,9 @@ func (p *progGen) node(b *strings.Builder, depth int) {
 		m := p.id("hr")
 		inner := p.pick([]string{"{% lorem 3 w random %}", "{% lorem 2 p random %}", `{% now "2006-01-02 15:04:05" %}`, "{{ s2|random }}x", "{{ strs|random }}x"})
 		fmt.Fprintf(b, "{%% macro %s() %%}.%s{%% endmacro %%}{%% if %s() %%}{%% endif %%}", m, inner, m)
+	case "inlong":
+		// membership in a long list of the caller's
+		fmt.Fprintf(b, "{%% if %s in longs %%}in{%% else %%}out{%% endif %%}", p.pick([]string{`"k7"`, `"k14"`, `"k21"`, "s1", `"k46"`}))
 	case "lookup":
 		// bare variable lookups, some of which fail for some context shapes
 		fmt.Fprintf(b, "{{ %s }}", p.pick([]string{"st.Name", "mp.k1", "lst.0", "strs.1", "n1.Foo", "mp.0", "s1.x", "fn_maybe", "poly.Name", "st.Next.Age", "nl.a.b", "lst.9", "f1.z"}))
@@ -718,6 +721,11 @@ func GenProgramOpt(g *Tape, size int, allowMut bool) *ProgSpec {
 		}
 	}
 	sp.Files["main.tpl"] = mb.String()
+	if g.Draw(8) == 0 {
+		// a template file of more than 40 KiB whose bulk is a comment (sizes of sources, not of
+		// outputs, cross the thresholds an engine may have)
+		sp.Files["inc0.tpl"] += "{# " + strings.Repeat("padding of a large template source. ", 1200) + "#}"
+	}
 	for t := range p.tags {
 		sp.Tags = append(sp.Tags, t)
 	}
@@ -794,6 +802,16 @@ var bigStrings = func() [3]string {
 	return [3]string{mk(3 << 10), mk(40 << 10), mk(70 << 10)}
 }()
 
+// longList: 24 strings whose content depends on the context variant (the membership tests the
+// generator writes come out differently per variant)
+func longList(v int) []string {
+	l := make([]string, 24)
+	for i := range l {
+		l[i] = fmt.Sprintf("k%d", i*(v+1))
+	}
+	return l
+}
+
 var hugeString = strings.Repeat("0123456789abcdef<&>\n", (1200<<10)/20)
 
 type simStringer struct{ s string }
@@ -840,6 +858,7 @@ func (w *World) BuildCtx(d CtxDesc) pongo2.Context {
 		"lzv":       []string{"inc0.tpl", "inc1.tpl", "inc0.tpl"}[v],
 		"bigs":      bigStrings[v],
 		"huge":      hugeString,
+		"longs":     longList(v),
 		"rdepth":    []int{3, 300, 600}[v],
 		"lz0":       "inc0.tpl",
 		"lz1":       "inc1.tpl",
